@@ -1,4 +1,5 @@
 SPECIFICATION Spec
 INVARIANT GateSound
 INVARIANT EvalOnlyIfAllowed
+INVARIANT TextGateSound
 CHECK_DEADLOCK FALSE
